@@ -117,10 +117,23 @@ class RegionBoundingBox:
         ...                              ymin=1.6, ymax=10.6)
         RegionBoundingBox(ixmin=1, ixmax=11, iymin=2, iymax=12)
         """
-        ixmin = int(np.floor(xmin + 0.5))
-        ixmax = int(np.ceil(xmax + 0.5))
-        iymin = int(np.floor(ymin + 0.5))
-        iymax = int(np.ceil(ymax + 0.5))
+        # ``value + 0.5`` can round across an integer when the value is
+        # within one ulp of a half-integer, so the value is compared
+        # with the (exactly representable) pixel edge instead; this is
+        # floor(value + 0.5) and ceil(value + 0.5) without the rounding
+        # of the sum
+        def lower(value):
+            base = np.floor(value)
+            return int(base) + (1 if value >= base + 0.5 else 0)
+
+        def upper(value):
+            base = np.floor(value)
+            return int(base) + (2 if value > base + 0.5 else 1)
+
+        ixmin = lower(xmin)
+        ixmax = upper(xmax)
+        iymin = lower(ymin)
+        iymax = upper(ymax)
 
         return cls(ixmin, ixmax, iymin, iymax)
 
